@@ -182,6 +182,10 @@ def run_case(tap, g, idx, res):
 
 
 def run_shard(spec):
+    if "cfgs" in spec:
+        from vf.scenario import run_shard as rs
+
+        return rs(spec)
     g = rng(spec["seed"], PROP, spec["shard"])
     tap = FlowTap()
     res = {"cases": 0, "viol": [], "nontrivial": [], "samples": [], "direct_calls": 0, "paired": 0, "system_lists": 0}
@@ -211,7 +215,7 @@ def check(tier, seed):
     rep = Report(PROP)
     rep.rule = (
         "case = (pipe type, media, H, design flow v 0.03-1.5 L/s, three small grid fields, generated loads) on the real Bisection1D or "
-        "RowWiseModifiedBisectionSearch instance (search=False): 31+5 direct retrieve_flow calls with N in 1..400, one paired evaluation "
+        "RowWiseModifiedBisectionSearch instance (search=False); plus the recorded flow events of every design run of the shared scenario pool: 31+5 direct retrieve_flow calls with N in 1..400, one paired evaluation "
         "(calculate_excess with v per borehole vs N v system) and, for every 2nd case, a SYSTEM evaluation of the whole list. "
         "non-trivial = every case (a paired evaluation of a multi-field list); distinct by (class, v, H, fields)."
     )
@@ -231,6 +235,33 @@ def check(tier, seed):
             rep.sample(s)
         for v in r["viol"]:
             rep.violate(v["mechanism"], v["message"], {"case": v["case"]})
+    # ---- flow events of every real design run of the shared scenario pool
+    from vf.props import pool_common as PC
+
+    recs, problems = PC.records(tier, seed)
+    for p in problems:
+        rep.inconclusive.append("scenario failed in the harness: " + p)
+    pool_events = 0
+    for rec in recs:
+        fl = rec.get("flow")
+        if not fl:
+            continue
+        rep.evaluations += 1
+        pool_events += fl["events"]
+        wit = {"scenario": rec["cfg"]}
+        for v in fl["violations"]:
+            rep.violate("design-run:" + v["mechanism"], f"{PC.method_of(rec)}: {v['message']}", wit)
+        if fl.get("system_products") and len(fl["n_values"]) > 1:
+            sp = fl["system_products"]
+            if max(sp) - min(sp) > 1e-9 * max(sp):
+                rep.violate("design-run:system-flow-not-shared-as-1-over-N", f"{PC.method_of(rec)}: m_dot N takes the values {sp[:5]} along the search (N in {fl['n_values'][:8]})", wit)
+            rep.count("system_searches_with_several_field_sizes")
+        if fl.get("borehole_flows") and len(fl["borehole_flows"]) > 1:
+            bf = fl["borehole_flows"]
+            if max(bf) - min(bf) > 1e-12 * max(bf):
+                rep.violate("design-run:borehole-flow-changes-with-field-size", f"{PC.method_of(rec)}: per-borehole mass flow takes the values {bf[:5]}", wit)
+        rep.nontrivial(["pool", rec["key"]])
+    rep.extra["design_run_flow_events"] = pool_events
     rep.extra["monitor_hits"] = hits
     for k2 in ("retrieve_flow_1d", "retrieve_flow_rowwise", "BaseGHE.__init__"):
         if hits.get(k2, 0) == 0:
